@@ -36,7 +36,8 @@ MANIFEST = {
     'technique': ('sibling cross-check of the two DataStore implementations: signature parity, '
                   'exception-escape analysis against the documented Raises contract (guarded '
                   'lookups on the exception-aware CFG), mutation-after-fallible-lookup ordering, '
-                  'table/column cascade coverage from the sqla.Table declarations, alias analysis'),
+                  'table/column cascade coverage from the sqla.Table declarations, alias analysis'
+                  '; symbolic SQLAlchemy statement model (sqlmodel) for cascade/filters; cache-coherence rule over in-memory containers of the SQL backend; result-shaping clauses (ORDER BY on string columns, LIMIT)'),
     'level_text': (
         'Static: everything about the two backends that is visible in their text agrees — '
         'interface, escaping error classes per method, atomicity of update_metadata, the '
